@@ -283,6 +283,33 @@ def check_conc(pid, tier, seed):
     return finish(pid, paths, known)
 
 
+def c13_stage(seed, tier, stats):
+    """C13 'with concurrent readers pinning old state': truncations that delete whole segments race with readers
+    (forced schedules from WalConc's coverage export + free-running); once everything has returned the sim directory
+    must hold exactly the listed segments (ConcJudge clause FilesNotReclaimed)."""
+    ti = 0 if tier == "quick" else 1
+    build(["concdrive"])
+    wd = scratch("verif-C13c-")
+    rng = random.Random(seed)
+    b = dict(NReaders=1, ReadsEach=1, SealAt=1, FIXED=True, WithCloser=False, WithStable=False, EarlyPublish=False)
+    scen = []
+    for pi, prog in enumerate(([["store", "store", "delh"]], [["store", "store", "delh"], ["store", "delt", "store", "delh"]])[ti]):
+        cs = gen_cover_schedules(prog, b, [1], stats, (120, 600)[ti], timeout=(200, 900)[ti])
+        for k, sc in enumerate(cs):
+            scen.append({"id": "C13c-p%d-s%d" % (pi, k), "mode": "forced", "world": "sim", "prog": prog, "nreaders": 1, "readsEach": 1,
+                         "withCloser": False, "withStable": False, "segSize": 60, "sched": sc, "seed": seed})
+    for k in range((6, 40)[ti]):
+        n = rng.randint(10, 30)
+        prog = [rng.choice(["store", "store", "delh", "delt"]) for _ in range(n)]
+        scen.append({"id": "C13c-free%d" % k, "mode": "free", "world": "sim", "prog": prog, "nreaders": 3, "readsEach": 100,
+                     "withCloser": False, "withStable": False, "segSize": rng.choice([60, 80]), "sched": [], "seed": seed * 77 + k,
+                     "preload": rng.randint(0, 4), "closeAfter": 0})
+    trace, _, _ = run_conc(scen, wd, "c13")
+    vs = [v for v in locate(trace, judge(trace, wd, stats)) if v["clause"] in ("FilesNotReclaimed", "Panic", "Deadlock")]
+    byid = {s["id"]: s for s in scen}
+    return [dict(v, scenario_obj=byid.get(v["scenario"])) for v in vs], len(scen)
+
+
 def replay(r):
     build(["concdrive"])
     wd = scratch("verif-replay-")
